@@ -25,3 +25,9 @@ Proof.
     assert (forallb (fun x => x <? 256) istoken_table = true) as B by (vm_compute; reflexivity).
     rewrite forallb_forall in B. apply B in Hx. lia.
 Qed.
+
+(** http.NO_BODY_CODES as regenerated from the source is exactly the model's [nobody_code] (204, 304) *)
+From C20 Require Import Model.
+
+Lemma no_body_codes_is_nobody_code c : nobody_code c = existsb (N.eqb c) no_body_codes.
+Proof. unfold nobody_code, no_body_codes. cbn [existsb]. rewrite orb_false_r. reflexivity. Qed.
